@@ -884,6 +884,7 @@ type HarnessRun struct {
 	Budget       int
 	SampleK      int // sample every k-th leaf for native validation
 	MaxPaths     int
+	Deadline     time.Time // stop taking new paths after this instant (zero: none)
 	mu           sync.Mutex
 	leafCount    int
 	inconclusive int
@@ -925,6 +926,7 @@ type RunStats struct {
 	Solver       SolverStats
 	Wall         time.Duration
 	Truncated    bool
+	TimedOut     bool
 	MaxDecisions int
 }
 
@@ -1001,6 +1003,11 @@ func (e *Engine) explore(h *HarnessRun, workers int) *RunStats {
 				if h.MaxPaths > 0 && st.Paths >= h.MaxPaths && len(work) > 0 {
 					stop = true
 					st.Truncated = true
+				}
+				if !h.Deadline.IsZero() && len(work) > 0 && time.Now().After(h.Deadline) {
+					stop = true
+					st.Truncated = true
+					st.TimedOut = true
 				}
 				if len(st.Violations) >= e.maxViolations {
 					stop = true
